@@ -158,6 +158,12 @@ fn script() -> Vec<Step> {
         (0, json!({"set": {"transactionId": 9, "key": "$SYS/x", "value": 1}}), 9, Exp::One(c, Some(9))),
         (0, json!({"set": {"transactionId": 10, "key": "a/?/b", "value": 1}}), 10, Exp::One(c, Some(0))),
         (0, json!({"set": {"transactionId": 11, "key": "a/#", "value": 1}}), 11, Exp::One(c, Some(1))),
+        // requests the core refuses are answered with an Err and the session goes on: patterns with `#` before the end below an EXISTING prefix
+        (0, json!({"set": {"transactionId": 80, "key": "bad/a/b/c", "value": 1}}), 80, Exp::One(c, None)),
+        (0, json!({"pGet": {"transactionId": 81, "requestPattern": "bad/a/#/c"}}), 81, Exp::One(c, Some(1))),
+        (0, json!({"pDelete": {"transactionId": 82, "requestPattern": "bad/a/#/c"}}), 82, Exp::One(c, Some(1))),
+        (0, json!({"pLs": {"transactionId": 83, "parentPattern": "bad/#/b"}}), 83, Exp::One(c, Some(1))),
+        (0, json!({"get": {"transactionId": 84, "key": "bad/a/b/c"}}), 84, Exp::One(&["state"], None)),
         (0, json!({"delete": {"transactionId": 12, "key": "k1"}}), 12, Exp::One(&["state"], None)),
         (0, json!({"delete": {"transactionId": 13, "key": "k1"}}), 13, Exp::One(q, Some(5))),
         (0, json!({"set": {"transactionId": 14, "key": "p/a", "value": 1}}), 14, Exp::One(&["ack"], None)),
@@ -320,6 +326,23 @@ pub fn c17(out: &mut Out) {
                 problems.push(json!({"after_line": l, "witness_open": open, "witness_received": format!("{msgs:?}")}));
             }
         }
+        // a client that is thrown out for a malformed line leaves nothing behind that hampers others: its locks (taken after an
+        // earlier release, and one it was only waiting for) are gone, a root ls-subscription of the witness survives new top-level keys
+        let mut rude = Session::open(&api, "rude", 0x900, false).await;
+        for l in [json!({"lock": {"transactionId": 1, "key": "jobs/first"}}), json!({"releaseLock": {"transactionId": 2, "key": "jobs/first"}}),
+                  json!({"lock": {"transactionId": 3, "key": "jobs/second"}}), json!({"subscribeLs": {"transactionId": 4}})] {
+            let _ = rude.request(&l.to_string()).await;
+        }
+        let _ = witness.request(&json!({"subscribeLs": {"transactionId": 2000}}).to_string()).await;
+        let _ = rude.request("{\"set\":{\"transactionId\":5,\"key\":").await;
+        api.disconnected(uuid::Uuid::from_u128(0x900), None).await.ok();
+        for (tid, line, want) in [(2001u64, json!({"lock": {"transactionId": 2001, "key": "jobs/second"}}), "ack"), (2002, json!({"lock": {"transactionId": 2002, "key": "jobs/first"}}), "ack"),
+                                  (2003, json!({"set": {"transactionId": 2003, "key": "brand/new", "value": 1}}), "ack"), (2004, json!({"get": {"transactionId": 2004, "key": "brand/new"}}), "state")] {
+            let (open, msgs) = witness.request(&line.to_string()).await;
+            if !open || msgs.iter().filter(|m| m.1 == Some(tid) && m.0 == want).count() != 1 {
+                problems.push(json!({"after": "a client that held locks and a root ls-subscription was disconnected for a malformed line", "witness_request": line, "witness_open": open, "witness_received": format!("{msgs:?}")}));
+            }
+        }
         problems
     })));
     match r {
@@ -458,6 +481,13 @@ pub fn c15(out: &mut Out) {
             (json!({"delete": {"transactionId": 44, "key": "w/a"}}), false), (json!({"pDelete": {"transactionId": 45, "requestPattern": "w/#"}}), false),
             (json!({"set": {"transactionId": 46, "key": "w/", "value": "new"}}), true), (json!({"set": {"transactionId": 47, "key": "r/a/", "value": "new"}}), false),
             (json!({"subscribe": {"transactionId": 48, "key": "r/a/", "unique": false}}), false), (json!({"ls": {"transactionId": 49, "parent": "r/a/"}}), false),
+            // listings are decided on the CHILDREN of the parent (parent/?): a grant that ends at the parent's depth does not cover them
+            (json!({"ls": {"transactionId": 50, "parent": "r"}}), true), (json!({"pLs": {"transactionId": 51, "parentPattern": "r"}}), true),
+            (json!({"ls": {"transactionId": 52, "parent": "r/a"}}), false), (json!({"pLs": {"transactionId": 53, "parentPattern": "r/?"}}), false),
+            (json!({"pLs": {"transactionId": 54, "parentPattern": "?"}}), false), (json!({"subscribeLs": {"transactionId": 55, "parent": "r/a"}}), false),
+            // cSet / cGet need the write / read grant of their key, not the other one
+            (json!({"cSet": {"transactionId": 56, "key": "r/a", "value": "new", "version": 0}}), false), (json!({"cGet": {"transactionId": 57, "key": "w/x"}}), false),
+            (json!({"cSet": {"transactionId": 58, "key": "w/x", "value": "new", "version": 0}}), true),
         ];
         for (line, granted) in &reqs2 {
             let tid = line.as_object().and_then(|o| o.values().next()).and_then(|b| b["transactionId"].as_u64()).unwrap_or(0);
@@ -482,7 +512,7 @@ pub fn c15(out: &mut Out) {
             out.report("C15/with authorization on, a request is served only after a valid token and only within its grants; refusals have no effect", Some("UNLISTED"), p);
         } },
     }
-    out.bounded("C15/end-to-end authorization through the real dispatcher (real Proto + core task, HS256 tokens)", "3 anonymous requests, forged and expired token, 22 requests against a read r/#, write w/#, delete d/# grant, 10 requests against a token without delete member incl. keys with a trailing empty segment", n, n);
+    out.bounded("C15/end-to-end authorization through the real dispatcher (real Proto + core task, HS256 tokens)", "3 anonymous requests, forged and expired token, 22 requests against a read r/#, write w/#, delete d/# grant, 21 requests against a token without delete member incl. keys with a trailing empty segment, listings of parents at the edge of a grant, cSet/cGet against the wrong grant", n, n);
     let _ = BTreeMap::<u8, u8>::new();
 }
 
